@@ -10,6 +10,7 @@ import (
 
 	"verifharness/common"
 
+	sdk "github.com/cosmos/cosmos-sdk/types"
 	stakingtypes "github.com/cosmos/cosmos-sdk/x/staking/types"
 
 	providerkeeper "github.com/cosmos/interchain-security/v7/x/ccv/provider/keeper"
@@ -56,10 +57,14 @@ func TestDriver(t *testing.T) {
 			panic(err)
 		}
 		env := common.NewProviderEnv(t, common.NewWorld(0))
-		const cid = "0"
+		// consumer "1" is the one under test; another consumer "10" (id with "1" as textual prefix) gets its own
+		// priority list written AFTER "1"'s, as a later MsgUpdateConsumer of that other consumer would do
+		const cid = "1"
 		for _, p := range k.Prio {
 			env.K.SetPrioritylist(env.Ctx, cid, providertypes.NewProviderConsAddress(addr(p)))
 		}
+		env.K.UpdatePrioritylist(env.Ctx, "10", []string{sdk.ConsAddress(addr(9999)).String()})
+		env.K.UpdatePrioritylist(env.Ctx, "0", []string{})
 		params := providertypes.PowerShapingParameters{Top_N: k.TopN, ValidatorSetCap: k.SetCap, ValidatorsPowerCap: k.PowerCap}
 
 		var nmp common.T = common.L()
@@ -95,6 +100,8 @@ func TestDriver(t *testing.T) {
 				}
 			}
 		}
+		env2.K.UpdatePrioritylist(env2.Ctx, "10", []string{sdk.ConsAddress(addr(9999)).String()})
+		env2.K.UpdatePrioritylist(env2.Ctx, "0", []string{})
 		params2 := params
 		params2.AllowInactiveVals = true
 		var composed common.T = common.L()
